@@ -105,6 +105,29 @@ def paths_written(st) -> set[str]:
     return out
 
 
+SIGNATURES = {}  # simple name of a module-level package function -> positional parameter names (unique names only)
+
+
+def register_signatures(repo):
+    """called when a Repo is built: lets canonicalisation turn `f(a, lut=b)` into `f(a, b)` for package helpers"""
+    sigs, dup = {}, set()
+    for mod in repo.mods(only_anchor=False):
+        for q, fns in mod.funcs.items():
+            if "." in q:
+                continue
+            for f in fns:
+                a = f.node.args
+                if a.vararg or a.kwarg or a.kwonlyargs or a.posonlyargs:
+                    dup.add(q)
+                    continue
+                ps = tuple(x.arg for x in a.args)
+                if q in sigs and sigs[q] != ps:
+                    dup.add(q)
+                sigs[q] = ps
+    SIGNATURES.clear()
+    SIGNATURES.update({k: v for k, v in sigs.items() if k not in dup})
+
+
 class _Canon(ast.NodeTransformer):
     """expression-level canonicalisation (no environment)"""
 
@@ -117,6 +140,15 @@ class _Canon(ast.NodeTransformer):
         self.generic_visit(n)
         named = [k for k in n.keywords if k.arg is not None]
         star = [k for k in n.keywords if k.arg is None]
+        # keyword arguments of a known package helper that continue the positional ones become positional
+        if isinstance(n.func, ast.Name) and n.func.id in SIGNATURES and not any(isinstance(a, ast.Starred) for a in n.args):
+            formal = SIGNATURES[n.func.id]
+            bykw = {k.arg: k for k in named}
+            i = len(n.args)
+            while i < len(formal) and formal[i] in bykw:
+                n.args.append(bykw.pop(formal[i]).value)
+                i += 1
+            named = list(bykw.values())
         n.keywords = sorted(named, key=lambda k: k.arg) + star
         return n
 
